@@ -11,63 +11,77 @@ Proof. unfold len. rewrite app_length. lia. Qed.
 Lemma len_nonneg a : 0 <= len a.
 Proof. unfold len. lia. Qed.
 
-Lemma slice_mid (w bs t : list Z) n :
-  n = len bs -> slice (w ++ bs ++ t) (len w) n = bs.
+Lemma take_app (bs t : list Z) : take (len bs) (bs ++ t) = bs.
 Proof.
-  intros ->. unfold slice, len. rewrite !Nat2Z.id.
-  rewrite skipn_app, skipn_all2, Nat.sub_diag by lia. cbn [skipn app].
-  rewrite firstn_app, Nat.sub_diag, firstn_all2 by lia. cbn [firstn]. apply app_nil_r.
+  unfold take, len. rewrite Nat2Z.id, firstn_app, Nat.sub_diag, firstn_all2 by lia.
+  cbn [firstn]. apply app_nil_r.
 Qed.
 
-Section Read.
-Variables (w bs t : list Z).
-Let data := w ++ bs ++ t.
-
-Lemma u_read_mid n us k :
-  u_j us = len w -> n = len bs ->
-  u_read data n us k = k bs (u_set_j us (len w + n)).
+Lemma skip_app (bs t : list Z) : skipn (Z.to_nat (len bs)) (bs ++ t) = t.
 Proof.
-  intros Hj Hn. unfold u_read. rewrite Hj. subst data.
-  rewrite !len_app. pose proof (len_nonneg t).
-  destruct (Z.leb_spec n (len w + (len bs + len t) - len w)); [|lia].
-  rewrite slice_mid by assumption. reflexivity.
+  unfold len. rewrite Nat2Z.id, skipn_app, skipn_all2, Nat.sub_diag by lia. reflexivity.
 Qed.
 
-Lemma u_read_short_mid n us k :
-  u_j us = len w -> n = len bs ->
-  u_read_short data n us k = k bs (u_set_j us (len w + n)).
+Lemma skipn_skipn' (A : Type) (a b : nat) (l : list A) : skipn b (skipn a l) = skipn (a + b) l.
 Proof.
-  intros Hj Hn. unfold u_read_short. rewrite Hj. subst data.
-  rewrite !len_app. pose proof (len_nonneg t).
-  destruct (Z.leb_spec n (len w + (len bs + len t) - len w)); [|lia].
-  rewrite slice_mid by assumption. reflexivity.
+  revert l; induction a; intros l; cbn [skipn Nat.add]; [reflexivity|].
+  destruct l; [now rewrite !skipn_nil|]. apply IHa.
 Qed.
-End Read.
+
+Lemma u_adv_rest us bs t : u_rest us = bs ++ t -> u_rest (u_adv us (len bs)) = t.
+Proof. intros E. unfold u_adv. cbn [u_rest]. rewrite E. apply skip_app. Qed.
+
+Lemma u_adv_adv us a b : 0 <= a -> 0 <= b -> u_adv (u_adv us a) b = u_adv us (a + b).
+Proof.
+  intros. unfold u_adv. cbn [u_rd u_fmt u_j u_rest u_vals]. f_equal; [lia|].
+  rewrite skipn_skipn'. f_equal. lia.
+Qed.
+
+Lemma u_read_app us bs t n k :
+  u_rest us = bs ++ t -> n = len bs -> u_read n us k = k bs (u_adv us n).
+Proof.
+  intros E ->. unfold u_read. rewrite E, len_app. pose proof (len_nonneg t).
+  destruct (Z.leb_spec (len bs) (len bs + len t)); [|lia]. now rewrite take_app.
+Qed.
+
+Lemma u_read_short_app us bs t n k :
+  u_rest us = bs ++ t -> n = len bs -> u_read_short n us k = k bs (u_adv us n).
+Proof.
+  intros E ->. unfold u_read_short. rewrite E, len_app. pose proof (len_nonneg t).
+  destruct (Z.leb_spec (len bs) (len bs + len t)); [|lia]. now rewrite take_app.
+Qed.
+
+Lemma u_skip_app us bs t n k :
+  u_rest us = bs ++ t -> n = len bs -> u_skip n us k = k (u_adv us n).
+Proof.
+  intros E ->. unfold u_skip. rewrite E, len_app. pose proof (len_nonneg t).
+  destruct (Z.leb_spec (len bs) (len bs + len t)); [|lia]. reflexivity.
+Qed.
 
 Lemma forallb_repeat (f : Z -> bool) x n : f x = true -> forallb f (repeat x n) = true.
 Proof. intros. induction n; cbn; auto. rewrite H, IHn. reflexivity. Qed.
 
-Lemma u_skip0_mid w n t us k :
-  u_j us = len w ->
-  u_skip0 (w ++ repeat 0 n ++ t) (Z.of_nat n) us k = k (u_set_j us (len w + Z.of_nat n)).
+Lemma len_repeat (x : Z) n : len (repeat x n) = Z.of_nat n.
+Proof. unfold len. now rewrite repeat_length. Qed.
+
+Lemma u_skip0_app us n t k :
+  u_rest us = repeat 0 n ++ t ->
+  u_skip0 (Z.of_nat n) us k = k (u_adv us (Z.of_nat n)).
 Proof.
-  intros Hj. unfold u_skip0. rewrite Hj, !len_app. pose proof (len_nonneg t).
-  assert (L : len (repeat 0 n) = Z.of_nat n) by (unfold len; now rewrite repeat_length).
-  rewrite L. destruct (Z.leb_spec (len w + Z.of_nat n) (len w + (Z.of_nat n + len t))); [|lia].
-  rewrite slice_mid by (symmetry; exact L).
+  intros E. unfold u_skip0. rewrite E, len_app, len_repeat. pose proof (len_nonneg t).
+  destruct (Z.leb_spec (Z.of_nat n) (Z.of_nat n + len t)); [|lia].
+  rewrite <- (len_repeat 0 n) at 1. rewrite take_app.
   rewrite forallb_repeat by reflexivity. reflexivity.
 Qed.
 
-Lemma u_sign_ext_mid w x n t us k :
-  (0 < n)%nat -> x = 0 \/ x = 255 -> u_j us = len w ->
-  u_sign_ext (w ++ repeat x n ++ t) (Z.of_nat n) us k = k x (u_set_j us (len w + Z.of_nat n)).
+Lemma u_sign_ext_app us x n t k :
+  (0 < n)%nat -> x = 0 \/ x = 255 -> u_rest us = repeat x n ++ t ->
+  u_sign_ext (Z.of_nat n) us k = k x (u_adv us (Z.of_nat n)).
 Proof.
-  intros Hn Hx Hj. unfold u_sign_ext. rewrite Hj, !len_app. pose proof (len_nonneg t).
-  assert (L : len (repeat x n) = Z.of_nat n) by (unfold len; now rewrite repeat_length).
-  rewrite L.
+  intros Hn Hx E. unfold u_sign_ext. rewrite E, len_app, len_repeat. pose proof (len_nonneg t).
   destruct (Z.ltb_spec 0 (Z.of_nat n)); [|lia].
-  destruct (Z.leb_spec (len w + Z.of_nat n) (len w + (Z.of_nat n + len t))); [|lia].
-  cbn [andb]. rewrite slice_mid by (symmetry; exact L).
+  destruct (Z.leb_spec (Z.of_nat n) (Z.of_nat n + len t)); [|lia].
+  cbn [andb]. rewrite <- (len_repeat x n) at 1. rewrite take_app.
   destruct n; [lia|]. cbn [repeat].
   rewrite forallb_repeat by apply Z.eqb_refl.
   destruct Hx as [-> | ->]; reflexivity.
@@ -158,94 +172,165 @@ Proof.
   split; [lia|exact E].
 Qed.
 
-Lemma app_assoc3 (a b c : list Z) : (a ++ b) ++ c = a ++ b ++ c.
-Proof. now rewrite app_assoc. Qed.
+Lemma len_enc lt k v : len (enc lt k v) = Z.of_nat k.
+Proof. unfold len. now rewrite enc_length. Qed.
 
-Ltac zeqb := repeat match goal with
-  | |- context [?a =? ?b] => destruct (Z.eqb_spec a b); [try lia|]
-  | |- context [?a <=? ?b] => destruct (Z.leb_spec a b); [|try lia]
-  | |- context [?a <? ?b] => destruct (Z.ltb_spec a b); [|try lia]
-  end.
-
-Theorem int_roundtrip : forall (k : nat) v s s' t us kont,
-  (1 <= k <= 16)%nat -> - H <= v < H ->
-  packInt (Z.of_nat k) v s = PCont s' ->
-  little (u_rd us) = little (p_rd s) -> u_j us = len (p_w s) ->
-  readVarInt (p_w s' ++ t) (Z.of_nat k) us kont = kont v (u_set_j us (len (p_w s'))).
+Lemma mod64_neg v : - Model.H <= v < 0 -> v mod W = v + W.
 Proof.
-  intros k v s s' t us kont Hk Hv HP Hl Hj.
-  unfold packInt in HP. unfold readVarInt. rewrite Hl.
-  set (lt := little (p_rd s)) in *.
+  intros. unfold Model.H, W in *. rewrite <- (Z.mod_add v 1) by lia. rewrite Z.mul_1_l. apply Z.mod_small. lia.
+Qed.
+
+(* what packInt writes, readVarInt reads back *)
+Theorem int_roundtrip : forall (k : nat) v s s',
+  (1 <= k <= 16)%nat -> - Model.H <= v < Model.H ->
+  packInt (Z.of_nat k) v s = PCont s' ->
+  exists bs, s' = p_write s bs /\
+    forall us t kont, little (u_rd us) = little (p_rd s) -> u_rest us = bs ++ t ->
+      readVarInt (Z.of_nat k) us kont = kont v (u_adv us (len bs)).
+Proof.
+  intros k v s s' Hk Hv HP.
+  unfold packInt in HP. set (lt := little (p_rd s)) in *.
   destruct (Z.eqb_spec (Z.of_nat k) 4) as [E4|N4].
   { apply p_bounds_inv in HP. destruct HP as [B HP]. injection HP as HP; subst s'.
-    cbn [p_put_int p_write p_w]. fold lt. rewrite app_assoc3.
-    rewrite u_read_mid by (auto; unfold len; now rewrite enc_length).
-    rewrite dec_enc, sgn_mod by (cbn; lia). rewrite len_app. unfold len at 3. rewrite enc_length. reflexivity. }
+    exists (enc lt 4 v). split; [reflexivity|]. intros us t kont Hl E.
+    unfold readVarInt. rewrite Hl. fold lt. rewrite E4. cbn [Z.eqb Pos.eqb].
+    rewrite (u_read_app us _ _ 4 _ E) by (now rewrite len_enc).
+    rewrite dec_enc, sgn_mod by (cbn; lia). now rewrite len_enc. }
   destruct (Z.eqb_spec (Z.of_nat k) 8) as [E8|N8].
   { injection HP as HP; subst s'.
-    cbn [p_put_int p_write p_w]. fold lt. rewrite app_assoc3.
-    rewrite u_read_mid by (auto; unfold len; now rewrite enc_length).
-    rewrite dec_enc, sgn_mod by (cbn; unfold Model.H in Hv; lia). rewrite len_app. unfold len at 3. rewrite enc_length. reflexivity. }
+    exists (enc lt 8 v). split; [reflexivity|]. intros us t kont Hl E.
+    unfold readVarInt. rewrite Hl. fold lt. rewrite E8. cbn [Z.eqb Pos.eqb].
+    rewrite (u_read_app us _ _ 8 _ E) by (now rewrite len_enc).
+    rewrite dec_enc, sgn_mod by (cbn; unfold Model.H in Hv; lia). now rewrite len_enc. }
   destruct (Z.leb_spec 8 (Z.of_nat k)) as [G8|L8].
-  { (* 9..16 bytes *)
-    destruct (Z.ltb_spec 8 (Z.of_nat k)); [|lia].
-    injection HP as HP; subst s'. cbn [p_write p_w].
-    replace (Z.to_nat (Z.of_nat k - 8)) with (k - 8)%nat by lia.
-    replace (Z.of_nat k - 8) with (Z.of_nat (k - 8)) by lia.
+  { replace (Z.to_nat (Z.of_nat k - 8)) with (k - 8)%nat in HP by lia.
+    injection HP as HP; subst s'.
     set (x := if v <? 0 then 255 else 0).
     assert (Hx : x = 0 \/ x = 255) by (subst x; destruct (v <? 0); auto).
-    assert (L8e : len (enc lt 8 v) = 8) by (unfold len; now rewrite enc_length).
-    assert (Lf : len (repeat x (k - 8)) = Z.of_nat (k - 8)) by (unfold len; now rewrite repeat_length).
-    assert (FIN : forall us', 
+    eexists. split; [reflexivity|]. intros us t kont Hl E.
+    unfold readVarInt. rewrite Hl. fold lt.
+    destruct (Z.eqb_spec (Z.of_nat k) 4); [lia|]. destruct (Z.eqb_spec (Z.of_nat k) 8); [lia|].
+    destruct (Z.ltb_spec 8 (Z.of_nat k)); [|lia].
+    replace (Z.of_nat k - 8) with (Z.of_nat (k - 8)) by lia.
+    assert (FIN : forall us',
        (if x =? 0 then if dec lt (enc lt 8 v) <=? maxint then kont (dec lt (enc lt 8 v)) us' else UFail EDoesNotFit
         else if maxint <? dec lt (enc lt 8 v) then kont (dec lt (enc lt 8 v) - W) us' else UFail EDoesNotFit)
        = kont v us').
-    { intros us'. rewrite dec_enc. change (256 ^ Z.of_nat 8) with W. unfold Model.H, W, maxint in *. subst x.
+    { intros us'. rewrite dec_enc. change (256 ^ Z.of_nat 8) with W. subst x.
       destruct (Z.ltb_spec v 0).
-      - replace (v mod 18446744073709551616) with (v + 18446744073709551616).
-        2:{ symmetry. rewrite <- (Z.mod_add v 1) by lia. apply Z.mod_small. lia. }
-        cbn [Z.eqb]. destruct (Z.ltb_spec 9223372036854775807 (v + 18446744073709551616)); [|lia].
-        f_equal. lia.
-      - rewrite Z.mod_small by lia. cbn [Z.eqb].
+      - rewrite mod64_neg by lia. cbn [Z.eqb]. unfold maxint, Model.H, W in *.
+        destruct (Z.ltb_spec 9223372036854775807 (v + 18446744073709551616)); [|lia]. f_equal. lia.
+      - unfold maxint, Model.H, W in *. rewrite Z.mod_small by lia. cbn [Z.eqb].
         destruct (Z.leb_spec v 9223372036854775807); [reflexivity|lia]. }
     destruct lt.
-    - rewrite app_assoc3, <- (app_assoc (enc true 8 v)).
-      rewrite u_read_mid by auto.
-      pose proof (u_sign_ext_mid (p_w s ++ enc true 8 v) x (k - 8) t) as SE.
-      rewrite <- app_assoc in SE.
-      rewrite SE; [ | lia | assumption | unfold u_set_j; cbn [u_j]; rewrite len_app; lia ].
-      rewrite FIN. unfold u_set_j. cbn [u_rd u_fmt u_vals u_j]. do 2 f_equal.
-      rewrite !len_app. lia.
-    - rewrite app_assoc3, <- (app_assoc (repeat x (k - 8))).
-      rewrite u_sign_ext_mid by (auto; lia).
-      pose proof (u_read_mid (p_w s ++ repeat x (k - 8)) (enc false 8 v) t 8) as RD.
-      rewrite <- app_assoc in RD.
-      rewrite RD; [ | unfold u_set_j; cbn [u_j]; rewrite len_app; lia | lia ].
-      rewrite FIN. unfold u_set_j. cbn [u_rd u_fmt u_vals u_j]. do 2 f_equal.
-      rewrite !len_app. lia. }
+    - rewrite <- app_assoc in E.
+      rewrite (u_read_app us _ _ 8 _ E) by (now rewrite len_enc).
+      pose proof (u_adv_rest us _ _ E) as E'. rewrite len_enc in E'.
+      rewrite (u_sign_ext_app _ x (k - 8) t _); [ | lia | exact Hx | exact E' ].
+      rewrite FIN, u_adv_adv by lia. rewrite len_app, len_enc, len_repeat. reflexivity.
+    - rewrite <- app_assoc in E.
+      rewrite (u_sign_ext_app us x (k - 8) (enc false 8 v ++ t)); [ | lia | exact Hx | exact E ].
+      pose proof (u_adv_rest us _ _ E) as E'. rewrite len_repeat in E'.
+      rewrite (u_read_app _ _ _ 8 _ E') by (now rewrite len_enc).
+      rewrite FIN, u_adv_adv by lia. rewrite len_app, len_enc, len_repeat. reflexivity. }
   (* 1..7 bytes, not 4 *)
-  destruct (Z.ltb_spec 8 (Z.of_nat k)); [lia|].
   replace (Z.to_nat (8 - Z.of_nat k)) with (8 - k)%nat in HP by lia.
   rewrite Nat2Z.id in HP.
-  replace (Z.to_nat (8 - Z.of_nat k)) with (8 - k)%nat by lia.
   remember (8 - k)%nat as m eqn:Em.
   apply p_bounds_inv in HP. destruct HP as [B HP]. injection HP as HP; subst s'.
-  cbn [p_write p_w].
   assert (B' : - 2 ^ (8 * Z.of_nat k - 1) <= v < 2 ^ (8 * Z.of_nat k - 1)) by lia.
   assert (F : firstn k (le_bytes 8 v) = le_bytes k v).
   { replace 8%nat with (k + (8 - k))%nat by lia. apply firstn_le_bytes. }
-  destruct lt; cbv beta iota.
-  - unfold enc. rewrite F. rewrite app_assoc3.
-    rewrite u_read_short_mid by (auto; unfold len; now rewrite le_bytes_length).
-    unfold dec. replace (Z.to_nat (Z.of_nat k - 1)) with (k - 1)%nat by lia.
-    subst m. rewrite ext_signed by (auto; lia).
-    rewrite len_app. unfold len at 3. rewrite le_bytes_length. reflexivity.
-  - unfold enc. rewrite skipn_rev, le_bytes_length.
-    replace (8 - m)%nat with k by lia. rewrite F, app_assoc3.
-    rewrite u_read_short_mid by (auto; unfold len; now rewrite rev_length, le_bytes_length).
+  eexists. split; [reflexivity|]. intros us t kont Hl E.
+  unfold readVarInt. rewrite Hl. fold lt.
+  destruct (Z.eqb_spec (Z.of_nat k) 4); [lia|]. destruct (Z.eqb_spec (Z.of_nat k) 8); [lia|].
+  destruct (Z.ltb_spec 8 (Z.of_nat k)); [lia|].
+  replace (Z.to_nat (8 - Z.of_nat k)) with m by lia.
+  replace (Z.to_nat (Z.of_nat k - 1)) with (k - 1)%nat by lia.
+  destruct lt; cbv beta iota in *.
+  - unfold enc in *. rewrite F in *.
+    rewrite (u_read_short_app us _ _ _ _ E) by (unfold len; now rewrite le_bytes_length).
+    unfold dec. subst m. rewrite ext_signed by (auto; lia).
+    unfold len. now rewrite le_bytes_length.
+  - unfold enc in *. rewrite skipn_rev, le_bytes_length in *.
+    replace (8 - m)%nat with k in * by lia. rewrite F in *.
+    rewrite (u_read_short_app us _ _ _ _ E) by (unfold len; now rewrite rev_length, le_bytes_length).
     unfold dec. rewrite rev_app_distr, rev_involutive, rev_repeat.
     replace (nth 0 (rev (le_bytes k v)) 0) with (nth (k - 1) (le_bytes k v) 0).
     2:{ rewrite rev_nth by (rewrite le_bytes_length; lia). rewrite le_bytes_length. f_equal; lia. }
     subst m. rewrite ext_signed by (auto; lia).
-    rewrite len_app. unfold len at 3. rewrite rev_length, le_bytes_length. reflexivity.
+    unfold len. now rewrite rev_length, le_bytes_length.
+Qed.
+
+Lemma to_i64_mod v : - Model.H <= v < Model.H -> to_i64 (v mod W) = v.
+Proof.
+  intros Hv. rewrite <- (to_i64_small v Hv) at 2. unfold to_i64.
+  rewrite Z.mod_mod by (unfold W; lia). reflexivity.
+Qed.
+
+(* what packUint writes, readVarUint reads back (as the int64 with the same 64 bits) *)
+Theorem uint_roundtrip : forall (k : nat) v s s',
+  (1 <= k <= 16)%nat -> - Model.H <= v < Model.H ->
+  packUint (Z.of_nat k) v s = PCont s' ->
+  exists bs, s' = p_write s bs /\
+    forall us t kont, little (u_rd us) = little (p_rd s) -> u_rest us = bs ++ t ->
+      readVarUint (Z.of_nat k) us kont = kont v (u_adv us (len bs)).
+Proof.
+  intros k v s s' Hk Hv HP.
+  unfold packUint in HP. set (lt := little (p_rd s)) in *.
+  destruct (Z.eqb_spec (Z.of_nat k) 4) as [E4|N4].
+  { apply p_bounds_inv in HP. destruct HP as [B HP]. injection HP as HP; subst s'.
+    exists (enc lt 4 v). split; [reflexivity|]. intros us t kont Hl E.
+    unfold readVarUint. rewrite Hl. fold lt. rewrite E4. cbn [Z.eqb Pos.eqb].
+    rewrite (u_read_app us _ _ 4 _ E) by (now rewrite len_enc).
+    rewrite dec_enc, Z.mod_small by (cbn; lia). now rewrite len_enc. }
+  destruct (Z.eqb_spec (Z.of_nat k) 8) as [E8|N8].
+  { injection HP as HP; subst s'.
+    exists (enc lt 8 v). split; [reflexivity|]. intros us t kont Hl E.
+    unfold readVarUint. rewrite Hl. fold lt. rewrite E8. cbn [Z.eqb Pos.eqb].
+    rewrite (u_read_app us _ _ 8 _ E) by (now rewrite len_enc).
+    rewrite dec_enc. change (256 ^ Z.of_nat 8) with W. rewrite to_i64_mod by assumption. now rewrite len_enc. }
+  destruct (Z.ltb_spec 8 (Z.of_nat k)) as [G8|L8].
+  { replace (Z.to_nat (Z.of_nat k - 8)) with (k - 8)%nat in HP by lia.
+    injection HP as HP; subst s'.
+    eexists. split; [reflexivity|]. intros us t kont Hl E.
+    unfold readVarUint. rewrite Hl. fold lt.
+    destruct (Z.eqb_spec (Z.of_nat k) 4); [lia|]. destruct (Z.eqb_spec (Z.of_nat k) 8); [lia|].
+    destruct (Z.ltb_spec 8 (Z.of_nat k)); [|lia].
+    replace (Z.of_nat k - 8) with (Z.of_nat (k - 8)) by lia.
+    destruct lt.
+    - rewrite <- app_assoc in E.
+      rewrite (u_read_app us _ _ 8 _ E) by (now rewrite len_enc).
+      pose proof (u_adv_rest us _ _ E) as E'. rewrite len_enc in E'.
+      rewrite (u_skip0_app _ (k - 8) t _ E').
+      rewrite dec_enc. change (256 ^ Z.of_nat 8) with W. rewrite to_i64_mod by assumption.
+      rewrite u_adv_adv by lia. rewrite len_app, len_enc, len_repeat. reflexivity.
+    - rewrite <- app_assoc in E.
+      rewrite (u_skip0_app us (k - 8) _ _ E).
+      pose proof (u_adv_rest us _ _ E) as E'. rewrite len_repeat in E'.
+      rewrite (u_read_app _ _ _ 8 _ E') by (now rewrite len_enc).
+      rewrite dec_enc. change (256 ^ Z.of_nat 8) with W. rewrite to_i64_mod by assumption.
+      rewrite u_adv_adv by lia. rewrite len_app, len_enc, len_repeat. reflexivity. }
+  replace (Z.to_nat (8 - Z.of_nat k)) with (8 - k)%nat in HP by lia.
+  rewrite Nat2Z.id in HP.
+  remember (8 - k)%nat as m eqn:Em.
+  apply p_bounds_inv in HP. destruct HP as [B HP]. injection HP as HP; subst s'.
+  assert (B' : 0 <= v < 2 ^ (8 * Z.of_nat k)) by lia.
+  assert (F : firstn k (le_bytes 8 v) = le_bytes k v).
+  { replace 8%nat with (k + (8 - k))%nat by lia. apply firstn_le_bytes. }
+  eexists. split; [reflexivity|]. intros us t kont Hl E.
+  unfold readVarUint. rewrite Hl. fold lt.
+  destruct (Z.eqb_spec (Z.of_nat k) 4); [lia|]. destruct (Z.eqb_spec (Z.of_nat k) 8); [lia|].
+  destruct (Z.ltb_spec 8 (Z.of_nat k)); [lia|].
+  destruct lt; cbv beta iota in *.
+  - unfold enc in *. rewrite F in *.
+    rewrite (u_read_short_app us _ _ _ _ E) by (unfold len; now rewrite le_bytes_length).
+    unfold dec. rewrite ext_unsigned by (auto; lia).
+    unfold len. now rewrite le_bytes_length.
+  - unfold enc in *. rewrite skipn_rev, le_bytes_length in *.
+    replace (8 - m)%nat with k in * by lia. rewrite F in *.
+    rewrite (u_read_short_app us _ _ _ _ E) by (unfold len; now rewrite rev_length, le_bytes_length).
+    unfold dec, zeros. rewrite rev_app_distr, rev_involutive, rev_repeat.
+    fold (zeros (8 - Z.of_nat k)). rewrite ext_unsigned by (auto; lia).
+    unfold len. now rewrite rev_length, le_bytes_length.
 Qed.
